@@ -170,6 +170,12 @@ func (ev *Evidence) write() {
 		fmt.Fprintln(os.Stderr, "evidence:", err)
 		return
 	}
+	if os.Getenv("VERIF_REPO") != "" {
+		// a run redirected to a scratch worktree (seeded change) is not evidence about /repo
+		os.MkdirAll(filepath.Join(verifDir, "logs"), 0o755)
+		os.WriteFile(filepath.Join(verifDir, "logs", "evidence-scratch-"+ev.PropertyID+".json"), b, 0o644)
+		return
+	}
 	os.WriteFile(filepath.Join(verifDir, "evidence", ev.PropertyID+".json"), b, 0o644)
 }
 
